@@ -282,3 +282,89 @@ def run(cx):
                 region = b.reach_from([m.bb])
                 yp = [c for c in b.calls(f'{S1}::interpolate') if match(f'(call * (param self) (param {pname}))', cx.call(c)) is not None and c.bb in region]
                 cx.ob('EXPR', f'Series1::between:{pname}:ordinate', len(yp) == 1, f'the ordinate inserted with {pname} is self.interpolate({pname})', found=str(len(yp)))
+    run_series_functions(cx)
+
+
+def run_series_functions(cx):
+    """interpolation / crossings / areas / splits: the value-free shape of the formulas the property names"""
+    # ---------------------------------------------------------------- interpolate
+    b = cx.fn(f'{S1}::interpolate')
+    if b:
+        X, Y = '(field x (param self))', '(field y (param self))'
+        SEARCH = f'(call slice::binary_search_by {X} (closure * (param x)))'
+        rets = cx.alts(b, {'k': 'copy', 'pl': {'l': 0, 'p': []}}, b.exits()[0], len(b.blocks[b.exits()[0]]['stmts']) + 1)
+        kinds = {}
+        for (bb, dv, g) in rets:
+            if dv[0] == 'const' and (dv[1] != dv[1] or str(dv[1]).lower() == 'nan'):
+                ok, _ = cx.all_paths(b, bb, lambda has: has(f'(lt (param x) (index {X} 0))', True) or has(f'(lt (index {X} (sub (len {X}) 1)) (param x))', True))
+                kinds['nan-outside'] = ok
+            elif match(f'(index {Y} (unwrap {SEARCH}))', dv) is not None:
+                kinds['knot'] = cx.guarded(b, bb, f'(is {SEARCH} Ok)', True) is not None
+            else:
+                e = match(f'(add (index {Y} (sub $n 1)) (mul (div (sub (index {Y} $n) (index {Y} (sub $n 1))) (sub (index {X} $n) (index {X} (sub $n 1)))) (sub (param x) (index {X} (sub $n 1)))))', dv)
+                kinds['blend'] = e is not None and match(f'(unwrap_err {SEARCH})', e['n']) is not None
+        for cl in cx.facts.closures_of(b.name):
+            kinds['comparator'] = match('(unwrap (call f64::partial_cmp (param 2) (field cap:x (param 1))))', cx.retval(cl)) is not None
+        cx.ob('EXPR', 'Series1::interpolate', kinds == {'nan-outside': True, 'knot': True, 'blend': True, 'comparator': True},
+              'interpolate: NaN strictly outside [x_first, x_last]; an exact knot hit Ok(i) returns the STORED y[i]; otherwise the linear blend y0 + (y1-y0)/(x1-x0)*(x-x0) of the bracketing knots n-1, n',
+              where=b.file, found=str(kinds))
+    # ---------------------------------------------------------------- y_crossings
+    b = cx.fn(f'{S1}::y_crossings')
+    if b:
+        Y0 = '(index (field y (param self)) $j)'
+        Y1 = '(index (field y (param self)) (add 1 $j))'
+        pushes = b.calls('Vec::push')
+        ok = len(pushes) == 1
+        if ok:
+            s = pushes[0]
+            v = cx.arg(s, 1)
+            e = match('(add (index (field x (param self)) $j) (div (sub (param y_equals) (index (field y (param self)) $j)) '
+                      '(div (sub (index (field y (param self)) (add 1 $j)) (index (field y (param self)) $j)) (sub (index (field x (param self)) (add 1 $j)) (index (field x (param self)) $j)))))', v)
+            ok = e is not None and match('(itervar (range 0 (sub (len (field y (param self))) 1)))', e['j']) is not None
+            if ok:
+                # closed test on both ends of the segment: (v0<=y and v1>=y) or (v0>=y and v1<=y)
+                o2, off = cx.all_paths(b, s.bb, lambda has: (has(f'(le {Y0} (param y_equals))', True, e) and has(f'(le (param y_equals) {Y1})', True, e)) or
+                                       (has(f'(le (param y_equals) {Y0})', True, e) and has(f'(le {Y1} (param y_equals))', True, e)))
+                ok = o2
+                # ... and nothing narrower: the strict forms must not be what guards the push
+                strict, _ = cx.all_paths(b, s.bb, lambda has: has(f'(lt (param y_equals) {Y1})', True, e) or has(f'(lt {Y1} (param y_equals))', True, e) or
+                                         has(f'(lt {Y0} (param y_equals))', True, e) or has(f'(lt (param y_equals) {Y0})', True, e))
+                ok = ok and not strict
+        cx.ob('GUARD', 'Series1::y_crossings', ok,
+              'a crossing x0 + (level - y0)/slope is reported for every segment whose CLOSED ordinate range [min(y0,y1), max(y0,y1)] contains the level (a level met exactly at a knot, the last one included, is a crossing)',
+              where=b.file)
+        sd = b.calls('func1::series1::sort_and_dedup')
+        cx.ob('ORDER', 'Series1::y_crossings:sorted', len(sd) == 1 and all(b.dominates(sd[0].bb, e2) for e2 in b.exits()), 'crossings are sorted and de-duplicated before they are returned', where=b.file)
+    b = cx.fn('func1::series1::sort_and_dedup')
+    if b:
+        so, dd = b.calls('slice::sort_by'), b.calls('Vec::dedup_by')
+        cx.ob('ORDER', 'sort_and_dedup', len(so) == 1 and len(dd) == 1 and b.dominates(so[0].bb, dd[0].bb), 'sort precedes dedup', where=b.file)
+    # ---------------------------------------------------------------- areas and splits
+    b = cx.fn(f'{S1}::middle_reiemann_areas')
+    if b:
+        pushes = b.calls('Vec::push')
+        ok = len(pushes) == 1
+        if ok:
+            v = cx.arg(pushes[0], 1)
+            X0, X1 = '(index (field x (param self)) $i)', '(index (field x (param self)) (add 1 $i))'
+            Y0, Y1 = '(index (field y (param self)) $i)', '(index (field y (param self)) (add 1 $i))'
+            e = match(f'(agg tuple (0 (mul (add {X0} {X1}) 0.5)) (1 (mul (mul (sub {X1} {X0}) (add {Y0} {Y1})) 0.5)))', v)
+            ok = e is not None and match('(itervar (range 0 (sub (len (field x (param self))) 1)))', e['i']) is not None
+        cx.ob('EXPR', 'Series1::middle_reiemann_areas', ok, 'segment i contributes the trapezoid (x1-x0)*(y0+y1)/2 at the mid abscissa, one per segment', where=b.file)
+    b = cx.fn(f'{S1}::area_under')
+    if b:
+        r = cx.retval(b)
+        cx.ob('EXPR', 'Series1::area_under', match('(call Iterator::sum (call Iterator::map (call *middle_reiemann_areas (param self)) (closure *)))', r) is not None, 'area = sum of the trapezoids', where=b.file, found=r)
+    b = cx.fn(f'{S1}::split_at_x')
+    if b:
+        rets = cx.alts(b, {'k': 'copy', 'pl': {'l': 0, 'p': []}}, b.exits()[0], len(b.blocks[b.exits()[0]]['stmts']) + 1)
+        ok = False
+        for (bb, dv, g) in rets:
+            e = match('(agg tuple (0 (agg *Option::Some (0 (call *Series1::between (param self) (call *x_min (param self)) (param x))))) '
+                      '(1 (agg *Option::Some (0 (call *Series1::between (param self) (param x) (call *x_max (param self)))))))', dv)
+            if e is not None:
+                ok = True
+        cx.ob('EXPR', 'Series1::split_at_x', ok, 'an interior split yields between(x_min, x) and between(x, x_max): the pieces meet exactly at the requested abscissa', where=b.file)
+    b = cx.fn(f'{S1}::in_interval')
+    if b:
+        cx.expect('EXPR', 'Series1::in_interval', cx.retval(b), '(call *Series1::between (param self) (field min (param interval)) (field max (param interval)))', 'in_interval = between(min, max)', where=b.file)
